@@ -90,8 +90,8 @@ theorem sameT_failed (s : Sys) (self : Cid) : SameT s (failed s self) := by
   exact ((sameT_upd s self (fun x => { x with paused := true }) (fun _ => rfl)).trans
     (sameT_tell _ _ _ _ _)).trans (sameT_say _ _)
 
-theorem sameT_onSupervise (s : Sys) (self : Cid) (chain : List (Cid × List Cid)) : SameT s (onSupervise s self chain) := by
-  unfold onSupervise
+theorem sameT_onSuperviseDecide (s : Sys) (self : Cid) (chain : List (Cid × List Cid)) : SameT s (onSuperviseDecide s self chain) := by
+  unfold onSuperviseDecide
   simp only
   have h0 : SameT s (if (s.ctx self).strat = 0 then s else upd s self (fun x => { x with decIdx := x.decIdx + 1 })) := by
     split
@@ -106,6 +106,12 @@ theorem sameT_onSupervise (s : Sys) (self : Cid) (chain : List (Cid × List Cid)
       | apply st_tell
       | apply st_say
       | (apply st_upd; · intro _; rfl))
+
+theorem sameT_onSupervise (s : Sys) (self : Cid) (chain : List (Cid × List Cid)) : SameT s (onSupervise s self chain) := by
+  unfold onSupervise
+  split
+  · exact sameT_onSuperviseDecide _ _ _
+  · exact sameT_tell _ _ _ _ _
 
 end Vivid.ActorSys
 
